@@ -638,6 +638,9 @@ async fn master_requests(a: &ShardArgs, idx: u64) {
         // what the user asks for, and (for reads) the header list it must produce
         let mut expect: Option<Vec<(u8, u8, u8, u32, u32)>> = None;
         let mut expect_open: Option<(String, u16, u32, u32, u16, u16)> = None;
+        let mut expect_cmd: Option<Vec<(u8, u16, bool, u32)>> = None;
+        // (function code, the object expected on the wire, offsets of octets that are the library's own and not compared)
+        let mut expect_file: Option<(u8, Vec<u8>, Vec<usize>)> = None;
         let req = match r.below(10) {
             9 => {
                 // file requests carry strings with explicit sizes: plain, empty and multi-octet characters
@@ -649,7 +652,44 @@ async fn master_requests(a: &ShardArgs, idx: u64) {
                     "ü",
                     "a-rather-long-name-with-😀-in-it-and-more-text-after-the-emoji.dat",
                 ];
-                if r.bool() {
+                if r.chance(1, 4) {
+                    // WRITE of one file block / CLOSE_FILE / authentication: few fields, each in its place
+                    match r.below(3) {
+                        0 => {
+                            let (n, last, len) = (r.below(70_000) as u32, r.bool(), r.usize_below(200));
+                            let mut o = vec![70u8, 5, 0x5B, 1];
+                            o.extend(((8 + len) as u16).to_le_bytes());
+                            o.extend(0x0102_0304u32.to_le_bytes());
+                            o.extend((n | if last { 0x8000_0000 } else { 0 }).to_le_bytes());
+                            o.extend(vec![0x5A; len]);
+                            expect_file = Some((ra::F_WRITE, o, vec![]));
+                            UserReq::FileWriteBlock(n, last, len)
+                        }
+                        1 => {
+                            // handle, then size, block size, request id and status (not chosen by the caller, not compared)
+                            let mut o = vec![70u8, 4, 0x5B, 1, 13, 0];
+                            o.extend(0x0102_0304u32.to_le_bytes());
+                            o.extend([0u8; 9]);
+                            expect_file = Some((26, o, (10..19).collect()));
+                            UserReq::FileClose
+                        }
+                        _ => {
+                            let (user, pass) = (r.pick(&texts).to_string(), r.pick(&texts).to_string());
+                            let (u, p) = (user.as_bytes(), pass.as_bytes());
+                            let mut o = vec![70u8, 2, 0x5B, 1];
+                            o.extend(((12 + u.len() + p.len()) as u16).to_le_bytes());
+                            o.extend(12u16.to_le_bytes());
+                            o.extend((u.len() as u16).to_le_bytes());
+                            o.extend(((12 + u.len()) as u16).to_le_bytes());
+                            o.extend((p.len() as u16).to_le_bytes());
+                            o.extend([0u8; 4]); // authentication key: zero in a request
+                            o.extend(u);
+                            o.extend(p);
+                            expect_file = Some((29, o, vec![]));
+                            UserReq::FileNamed(2, String::new(), user, pass)
+                        }
+                    }
+                } else if r.bool() {
                     // OPEN_FILE with every field chosen here: the request on the wire must carry these values in their places
                     let path = r.pick(&texts).to_string();
                     let bits = r.u16() & 0x1FF;
@@ -734,6 +774,7 @@ async fn master_requests(a: &ShardArgs, idx: u64) {
                         )
                     })
                     .collect();
+                expect_cmd = Some(objs.clone());
                 UserReq::Command(false, objs)
             }
             3 | 4 => {
@@ -748,6 +789,7 @@ async fn master_requests(a: &ShardArgs, idx: u64) {
                         )
                     })
                     .collect();
+                expect_cmd = Some(objs.clone());
                 UserReq::Command(r.bool(), objs)
             }
             5 => UserReq::TimeSync(r.below(3) as u8),
@@ -781,6 +823,74 @@ async fn master_requests(a: &ShardArgs, idx: u64) {
                         }
                     }
                     Err(v) => report(a, "A1", idx, &v, f, &ctx),
+                }
+                // SELECT / OPERATE / DIRECT_OPERATE: the objects on the wire are the commands that were asked for, in order,
+                // each with its index, every field in its place and status 0 (hand-written encoding)
+                if matches!(f[1], 3 | 4 | 5) {
+                    if let Some(cmds) = expect_cmd.as_ref() {
+                        let want: Vec<(u8, u8, u32, Vec<u8>)> = cmds
+                            .iter()
+                            .map(|(kind, index, wide, value)| {
+                                let idx = if *wide { *index as u32 } else { (*index as u8) as u32 };
+                                let (var, mut bytes): (u8, Vec<u8>) = match kind {
+                                    0 => {
+                                        // control code (LATCH_ON 3 / LATCH_OFF 4), count, on time, off time
+                                        let mut b = vec![if value % 2 == 0 { 0x03 } else { 0x04 }, (*value % 3) as u8 + 1];
+                                        b.extend(value.to_le_bytes());
+                                        b.extend((value / 2).to_le_bytes());
+                                        (1, b)
+                                    }
+                                    1 => (1, (*value as i32).to_le_bytes().to_vec()),
+                                    2 => (2, (*value as i16).to_le_bytes().to_vec()),
+                                    3 => (3, (*value as f32 / 4.0).to_le_bytes().to_vec()),
+                                    _ => (4, (*value as f64 / 8.0).to_le_bytes().to_vec()),
+                                };
+                                bytes.push(0);
+                                (if *kind == 0 { 12 } else { 41 }, var, idx, bytes)
+                            })
+                            .collect();
+                        let w = ra::walk(f[1], &f[2..], false);
+                        let mut got: Vec<(u8, u8, u32, Vec<u8>)> = vec![];
+                        let mut widths_ok = true;
+                        for h in &w.headers {
+                            for o in &h.objs {
+                                got.push((h.group, h.var, o.index.unwrap_or(u32::MAX), o.bytes.clone()));
+                            }
+                        }
+                        // the index width on the wire is the one asked for
+                        let mut k = 0;
+                        for h in &w.headers {
+                            for _ in &h.objs {
+                                if let Some(c) = cmds.get(k) {
+                                    if (h.qual == ra::Q_PREFIX16) != c.2 {
+                                        widths_ok = false;
+                                    }
+                                }
+                                k += 1;
+                            }
+                        }
+                        if got != want || w.error.is_some() || !widths_ok {
+                            report(a, "A1", idx, &("command_request_objects".into(), format!("f{}", f[1]), format!("asked for {want:?} (widths ok: {widths_ok}), the request carries {got:?} (error {:?})", w.error)), f, &ctx);
+                        } else {
+                            out::count("A1_command_request_as_asked", 1);
+                        }
+                    }
+                }
+                if let Some((func, want, skip)) = expect_file.as_ref() {
+                    if f[1] == *func {
+                        let mut got = f[2..].to_vec();
+                        if got.len() == want.len() {
+                            for k in skip {
+                                got[*k] = 0;
+                            }
+                        }
+                        if got != *want {
+                            report(a, "A1", idx, &("file_request_fields".into(), format!("f{func}"), format!("expected the object {} but the request carries {}", hex(want), hex(&f[2..]))), f, &ctx);
+                        } else {
+                            out::count("A1_file_request_as_asked", 1);
+                        }
+                        expect_file = None;
+                    }
                 }
                 // OPEN_FILE: one g70v3 object (free format, qualifier 5B) whose fields are what was asked for
                 if f[1] == 25 {
